@@ -174,6 +174,9 @@ func c13Gen(r *kit.Rng, id string) *req.Session {
 	if rich {
 		s = schema.GenerateRich(r, "m", r.Range(25, 50), r.Range(2, 4))
 		o = model.GenOpts{Nasty: r.Chance(1, 2), MaxEntries: 3, Density: 70, KeyPool: 6}
+		// swarm knob: key strings with commas in them (paths and range queries built from
+		// such keys address another entry or none; either is a normal result)
+		o.CommaKeys = r.Chance(1, 5)
 	} else {
 		sk = []string{"rmap", "nstruct", "nmap", "ctl", "rstruct", "nacc"}[r.Intn(6)]
 		st, _ := store.New(sk)
